@@ -57,6 +57,12 @@ def gen(rng, tier):
                     yield {"family": "keepalive_max." + proto, "kind": "keepalive_max", "limit": limit, "proto": proto, "pace": pace,
                            "nreq": limit + 3, "tag": n, "seed": rng.randrange(1 << 30),
                            "app_delay": rng.choice([0, 0, 3])}
+                    if proto == "h1":
+                        # the application has its own opinion about the connection: the limit is the server's and still holds
+                        for hdr in ([b"connection", b"keep-alive"], [b"Connection", b"Keep-Alive"], [b"keep-alive", b"timeout=5, max=1000"]):
+                            n += 1
+                            yield {"family": "keepalive_max.h1.app-connection-header", "kind": "keepalive_max", "limit": limit, "proto": "h1", "pace": pace,
+                                   "nreq": limit + 3, "tag": n, "seed": rng.randrange(1 << 30), "app_delay": 0, "app_header": hdr}
         # ---- max_requests (tier B) -------------------------------------------------------------
         for be in ("asyncio", "trio"):
             for mr, jitter in ((1, 0), (3, 0), (2, 1), (2, 5)):
@@ -72,13 +78,13 @@ def gen(rng, tier):
             yield {"family": "max_requests.h2c", "kind": "max_requests", "backend": be, "max_requests": 2, "jitter": 0, "tag": n, "rep": 0, "how": "h2c"}
 
 
-def _tag_app(tag, delay=0, wait=None):
+def _tag_app(tag, delay=0, wait=None, extra=()):
     sc = [["recv_until_end"]]
     if wait:
         sc.append(["wait", wait])
     if delay:
         sc.append(["yield", delay])
-    sc.append(["respond", 200, [(b"x-tag", b"%d" % tag)], b"r%d" % tag])
+    sc.append(["respond", 200, [(b"x-tag", b"%d" % tag)] + list(extra), b"r%d" % tag])
     return sc
 
 
@@ -176,7 +182,7 @@ def run_one(case, tally):
             by_tag = {}
             tags = [case["tag"] * 100 + i for i in range(nreq)]
             for tg in tags:
-                by_tag[str(tg)] = _tag_app(tg, delay=case["app_delay"])
+                by_tag[str(tg)] = _tag_app(tg, delay=case["app_delay"], extra=[tuple(case["app_header"])] if case.get("app_header") else ())
             if case["proto"] == "h1":
                 reqs = [b"GET /t%d HTTP/1.1\r\nHost: h\r\n\r\n" % tg for tg in tags]
                 client = [["feed", b"".join(reqs)]] if case["pace"] == "burst" else [["feed", r] for r in reqs]
